@@ -121,6 +121,24 @@ func newNet(t vev.FailTB, n int) (mocknet.Mocknet, []host.Host) {
 	return mn, hs
 }
 
+// newNetUnconnected links the hosts but leaves connecting to the caller (so that
+// pubsub instances exist before the Connected notifications fire).
+func newNetUnconnected(t vev.FailTB, n int) (mocknet.Mocknet, []host.Host) {
+	mn := mocknet.New()
+	var hs []host.Host
+	for i := 0; i < n; i++ {
+		h, err := mn.GenPeer()
+		if err != nil {
+			t.Fatalf("HARNESS: GenPeer: %v", err)
+		}
+		hs = append(hs, h)
+	}
+	if err := mn.LinkAll(); err != nil {
+		t.Fatalf("HARNESS: LinkAll: %v", err)
+	}
+	return mn, hs
+}
+
 // rawRequest writes req on a fresh stream and returns everything the server wrote.
 func rawRequest(ctx context.Context, from host.Host, to host.Host, req *certexchange.Request) ([]byte, error) {
 	s, err := from.NewStream(ctx, to.ID(), certexchange.FetchProtocolName(nn))
@@ -311,7 +329,14 @@ func TestC16Poller(t *testing.T) {
 		// script
 		nrounds := rapid.IntRange(1, 3).Draw(t, "rounds")
 		var rounds []*round
-		pos := 0 // index into future of the next honest certificate
+		localWanted := 0
+		if rapid.IntRange(0, 2).Draw(t, "localprogress") == 0 {
+			localWanted = rapid.IntRange(1, 3).Draw(t, "localcerts")
+			if localWanted > len(future) {
+				localWanted = len(future)
+			}
+		}
+		pos := localWanted // index into future of the next honest certificate
 		anyBad := false
 		for r := 0; r < nrounds; r++ {
 			rd := &round{}
@@ -432,9 +457,22 @@ func TestC16Poller(t *testing.T) {
 		if err != nil {
 			t.Fatalf("HARNESS: NewPoller: %v", err)
 		}
+		// local progress between poller construction and the poll: the node's own consensus
+		// stored some certificates itself (the poller has to catch up from the store first)
+		local := 0
+		if localWanted > 0 {
+			for ; local < localWanted && local < len(future); local++ {
+				if err := s.st.Put(ctx, future[local]); err != nil {
+					t.Fatalf("HARNESS: local put: %v", err)
+				}
+			}
+		}
 		// ---- model
-		next := s.next()
+		next := s.next() + uint64(local)
 		table := s.tables[len(s.tables)-1]
+		if local > 0 {
+			table = futureTables[local-1]
+		}
 		status := polling.PollMiss
 		received := 0
 		var stored []*certs.FinalityCertificate
@@ -484,9 +522,9 @@ func TestC16Poller(t *testing.T) {
 			vev.Fail(t, c16, "C16/poller/store-advance", "store advanced to next instance %d, the valid prefix ends at %d (started at %d); script %v; status %v err %v", gotNext, next, s.next(), describeRounds(rounds), res.Status, res.Error)
 		}
 		for i, c := range stored {
-			g, err := s.st.Get(ctx, s.next()+uint64(i))
+			g, err := s.st.Get(ctx, s.next()+uint64(local)+uint64(i))
 			if err != nil || !bytes.Equal(certBytes(g), certBytes(c)) {
-				vev.Fail(t, c16, "C16/poller/stored-content", "stored certificate %d is not the validated one (%v)", s.next()+uint64(i), err)
+				vev.Fail(t, c16, "C16/poller/stored-content", "stored certificate %d is not the validated one (%v)", s.next()+uint64(local)+uint64(i), err)
 			}
 		}
 		if poller.NextInstance != next {
@@ -498,7 +536,7 @@ func TestC16Poller(t *testing.T) {
 		if res.Status != status {
 			vev.Fail(t, c16, "C16/poller/status", "poll status %v, model says %v; script %v (err %v)", res.Status, status, describeRounds(rounds), res.Error)
 		}
-		vev.Case(c16, vev.Digest("poll", s.first, n, fmt.Sprint(describeRounds(rounds))), anyBad, "poll", "poll-status:"+status.String(), fmt.Sprintf("poll-advanced:%d", min(int(next-s.next()), 4)), fmt.Sprintf("script-has-bad-item:%v", anyBad))
+		vev.Case(c16, vev.Digest("poll", s.first, n, fmt.Sprint(describeRounds(rounds))), anyBad, "poll", "poll-status:"+status.String(), fmt.Sprintf("poll-advanced:%d", min(int(next-s.next())-local, 4)), fmt.Sprintf("local-progress:%d", local), fmt.Sprintf("script-has-bad-item:%v", anyBad))
 		vev.Sample(c16, func() any {
 			return map[string]any{"kind": "poll", "store_next": s.next(), "script": describeRounds(rounds), "model_next": next, "model_status": status.String(), "requests_seen": seenFirst}
 		})
